@@ -48,12 +48,24 @@ def run_case(case):
         ok = await stage("startup", ezsp.startup_reset())
         if ok:
             ok = await stage("config", ezsp.write_config({}))
+        # "formats every frame for that version": besides raw commands, the composite operations the application reaches through the
+        # same EZSP object (methods of the version's protocol handler), before and after a later reset + negotiation
+        if ok:
+            ok = await stage("helper", ezsp.read_counters())
+        if ok:
+            ok = await stage("helper", ezsp.read_and_clear_counters())
         if ok:
             ok = await stage("reset", ezsp.reset())
         if ok:
             ok = await stage("version", ezsp.version())
         if ok:
             ok = await stage("command", ezsp.getConfigurationValue(t_.EzspConfigId.CONFIG_STACK_PROFILE))
+        if ok:
+            ok = await stage("helper", ezsp.read_counters())
+        if ok:
+            ok = await stage("helper", ezsp.read_and_clear_counters())
+        if ok:
+            ok = await stage("command", ezsp.nop())
         if ok and not fh2n and not fn2h and boot == "none":
             # "from then on every frame": a run long enough to take the request sequence number past 255
             async def many():
